@@ -66,6 +66,9 @@ def add : Ext → Ext → Ext
 
 def isInf : Ext → Bool
   | .posInf => true | .negInf => true | _ => false
+
+def isFin : Ext → Bool
+  | .fin _ => true | _ => false
 end Ext
 
 /-- what the checks can see of an argument -/
@@ -121,7 +124,7 @@ the flag says "this test evaluates to True" -/
 inductive Flag where
   | labelsNotStr | labelsEmpty | labelsEqual
   | utilNotList | utilNonReal | utilEmpty | utilInf
-  | candNotList | candLen | measNotList | measNonReal | measInf | measLen
+  | candNotList | candLen | measNotList | measNonReal | measInf | measNegative | measLen
   | valueNotNone | valueNotStr | valueNotInDomain | valueNotCallable | valueNotArray | valueBadShape
   | nLt1
   deriving DecidableEq, Repr
@@ -173,6 +176,7 @@ inductive Pred where
   | le0 (a : Var)                    -- a <= 0
   | notIn0Bound (a b : Var)          -- not 0 <= a <= b        (slack against the accountant's delta)
   | lt1 (a : Var)                    -- a < 1                  (remaining(k))
+  | notFiniteDiff (a b : Var)        -- not np.isfinite(a - b)  (Snapping: upper - lower)
   | notIntegralNotInf (a : Var)      -- not isinstance(a, Integral) and abs(a) != float("inf")
   | notHalfIntEither (a b : Var)     -- not isclose(2a, round(2a)) or not isclose(2b, round(2b))
   | dimNotInt (a : Var)              -- not isinstance(a, Real) or not np.isclose(a, int(a))
@@ -215,6 +219,10 @@ def Pred.eval (env : Env) : Pred → Except VErr Bool
       let y ← needReal (env.v b)
       return !(Ext.le x y)
   | .lt1 a => (needReal (env.v a)).map fun x => Ext.lt x .one
+  | .notFiniteDiff a b => do
+      let x ← needReal (env.v a)
+      let y ← needReal (env.v b)
+      return !(x.isFin && y.isFin)                              -- inf - inf = nan, nan - x = nan: not finite
   | .notIntegralNotInf a =>
       if (env.v a).isIntegral then .ok false
       else (needReal (env.v a)).map fun x => !x.isInf          -- abs(None) / abs('1'): TypeError
@@ -338,7 +346,7 @@ def chainOf : Mech → Block → Chain
   | .LaplaceTruncated, .bounds => baseBounds
   | .LaplaceFolded, .bounds => baseBounds
   | .LaplaceBoundedDomain, .bounds => baseBounds
-  | .Snapping, .bounds => baseBounds
+  | .Snapping, .bounds => baseBounds ++ [⟨notFiniteDiff upper lower, valueError⟩]
   | _, .bounds => []
   | .Binary, .labels => [⟨flag labelsNotStr, typeError⟩, ⟨flag labelsEmpty, valueError⟩, ⟨flag labelsEqual, valueError⟩]
   | _, .labels => []
@@ -346,12 +354,12 @@ def chainOf : Mech → Block → Chain
     [⟨flag utilNotList, typeError⟩, ⟨flag utilNonReal, typeError⟩, ⟨flag utilEmpty, valueError⟩,
      ⟨flag utilInf, valueError⟩, ⟨flag candNotList, typeError⟩, ⟨flag candLen, valueError⟩,
      ⟨flag measNotList, typeError⟩, ⟨flag measNonReal, typeError⟩, ⟨flag measInf, valueError⟩,
-     ⟨flag measLen, valueError⟩]
+     ⟨flag measNegative, valueError⟩, ⟨flag measLen, valueError⟩]
   | .PermuteAndFlip, .utility =>
     [⟨flag utilNotList, typeError⟩, ⟨flag utilNonReal, typeError⟩, ⟨flag utilEmpty, valueError⟩,
      ⟨flag utilInf, valueError⟩, ⟨flag candNotList, typeError⟩, ⟨flag candLen, valueError⟩,
      ⟨flag measNotList, typeError⟩, ⟨flag measNonReal, typeError⟩, ⟨flag measInf, valueError⟩,
-     ⟨flag measLen, valueError⟩]
+     ⟨flag measNegative, valueError⟩, ⟨flag measLen, valueError⟩]
   | _, .utility => []
   | .Staircase, .gamma => [⟨notReal gamma, typeError⟩, ⟨notIn01 gamma, valueError⟩]
   | _, .gamma => []
@@ -478,7 +486,7 @@ def remainingChain : Chain := [⟨notIntegral k, typeError⟩, ⟨lt1 k, valueEr
 
 /-- numpy's `np.ravel(x).astype(float)` on one bound of `validation.check_bounds` -/
 def asFloat : PyVal → Except VErr Ext
-  | .none => .error .typeError              -- float(None)
+  | .none => .ok .nan                       -- np.ravel(None).astype(float) = [nan]
   | .str Option.none => .error .valueError  -- could not convert string to float
   | .str (some x) => .ok x                  -- a numeric string IS converted
   | .complex re => .ok re                   -- ComplexWarning, imaginary part discarded
